@@ -53,6 +53,11 @@ fn main() {
             run_replay(&args[2])
         }
         "selftest" => run_selftest(),
+        "selfhash" => {
+            let n = args.get(2).and_then(|s| s.parse().ok()).unwrap_or(100);
+            println!("{:016x}", selfhash(n));
+            0
+        }
         "build-front-ends" => match cli::build_front_ends() {
             Ok(()) => 0,
             Err(e) => {
@@ -159,15 +164,13 @@ fn minimise_plan(plan: &threads::Plan, class: &str) -> (threads::Plan, usize) {
     (best, tries)
 }
 
-fn check_c07(tier: Tier, seed: u64) -> i32 {
+type C07Found = (u64, threads::Plan, props::Violation);
+
+fn c07_sweep(seed: u64, sims: u64, cap: f64, t0: std::time::Instant) -> (engine::Stats, Vec<C07Found>, std::collections::HashSet<u64>) {
     use std::sync::atomic::{AtomicU64, Ordering};
-    let t0 = std::time::Instant::now();
-    let known = engine::load_known();
-    let sims = runs_override(match tier { Tier::Quick => 2_500, Tier::Thorough => 250_000 });
-    let cap = wall_cap(tier);
     let nt = engine::n_threads() as u64;
     let first_bad = AtomicU64::new(u64::MAX);
-    let results: Vec<(engine::Stats, Vec<(u64, threads::Plan, props::Violation)>, std::collections::HashSet<u64>)> = std::thread::scope(|s| {
+    let results: Vec<(engine::Stats, Vec<C07Found>, std::collections::HashSet<u64>)> = std::thread::scope(|s| {
         let mut hs = vec![];
         for t in 0..nt {
             let first_bad = &first_bad;
@@ -226,6 +229,32 @@ fn check_c07(tier: Tier, seed: u64) -> i32 {
         schedules.extend(sc);
     }
     found.sort_by_key(|f| f.0);
+    (stats, found, schedules)
+}
+
+/// Re-execute a freshly written replay file in a fresh process. If it does not reproduce there, the
+/// violation depends on what this process executed earlier (thread-local or process-wide state
+/// outside every descriptor): fall back to a replay that re-runs the sweep prefix 0..=upto under
+/// the same seed and worker count, which is deterministic per worker thread.
+fn confirm_or_prefix(prop: &str, path: String, v: &props::Violation, tier: Tier, seed: u64, runs: u64, upto: u64) -> String {
+    let exe = std::env::current_exe().unwrap();
+    let fresh = |p: &str| std::process::Command::new(&exe).args(["replay", p]).stdout(std::process::Stdio::null()).stderr(std::process::Stdio::null()).status().ok().and_then(|s| s.code());
+    if fresh(&path) == Some(1) {
+        return path;
+    }
+    let body = json!({"tier": tier.name(), "verif_seed": seed.to_string(), "runs": runs, "upto": upto, "threads": engine::n_threads(),
+        "note": "the minimised/single scenario does not reproduce in a fresh process: the violation depends on state left behind by earlier runs in the same process; this file re-executes run indices 0..=upto of the check"});
+    let p2 = engine::write_replay(prop, "sweep-prefix", body, v, false, json!({"single_scenario_replay_that_did_not_reproduce_alone": path}));
+    println!("note: the single-scenario replay does not reproduce in a fresh process (hidden process/thread state); wrote a sweep-prefix replay instead");
+    p2
+}
+
+fn check_c07(tier: Tier, seed: u64) -> i32 {
+    let t0 = std::time::Instant::now();
+    let known = engine::load_known();
+    let sims = runs_override(match tier { Tier::Quick => 2_500, Tier::Thorough => 250_000 });
+    let cap = wall_cap(tier);
+    let (mut stats, found, schedules) = c07_sweep(seed, sims, cap, t0);
     // proc dimension: the same batch in fresh processes (new ASLR, new std hash keys)
     let nproc = 8;
     let batch = match tier { Tier::Quick => 400u64, Tier::Thorough => 20_000 };
@@ -289,6 +318,7 @@ fn check_c07(tier: Tier, seed: u64) -> i32 {
             (plan.to_json(), false)
         };
         let path = engine::write_replay("C07", "plan", body, v, minimised, json!({"simulation_index": i, "original": plan.to_json(), "minimiser_executions": tries}));
+        let path = confirm_or_prefix("C07", path, v, tier, seed, sims, *i);
         println!("violation class={} simulation={} detail={}", v.class, i, v.detail);
         println!("VIOLATION property=C07 replay={}", path);
         code = 1;
@@ -485,7 +515,7 @@ fn check_c09(tier: Tier, seed: u64) -> i32 {
         let still = engine::reproduces("C09", &m, &class, exec::Trace::Light, false);
         (if still { m.to_json() } else { f.scenario.to_json() }, still, json!({"original": f.scenario.to_json(), "run_index": f.index, "minimiser_executions": tries}))
     };
-    let (code, nviol) = report_and_exit_code("C09", &unknown, &stats, &known, &minimise, "scenario");
+    let (code, nviol) = report_and_exit_code("C09", &unknown, &stats, &known, &minimise, "scenario", None);
     stats.add("worker_process_restarts", out.worker_restarts);
     engine::write_evidence(engine::EvidenceIn {
         prop: "C09", tier, seed, level: "exploration", rule: spec.rule, stats: &stats, wall_s: out.wall_s, violations: nviol, known: 0,
@@ -592,6 +622,7 @@ pub fn report_and_exit_code(
     known: &[engine::KnownFinding],
     minimise: &dyn Fn(&Found) -> (Value, bool, Value),
     kind: &str,
+    prefix: Option<(Tier, u64, u64)>,
 ) -> (i32, usize) {
     // known findings listed for this property
     for k in known.iter().filter(|k| k.status == "known" && k.property == prop) {
@@ -600,7 +631,10 @@ pub fn report_and_exit_code(
     }
     if let Some(f) = found.first() {
         let (body, minimised, extra) = minimise(f);
-        let path = engine::write_replay(prop, kind, body, &f.violation, minimised, extra);
+        let mut path = engine::write_replay(prop, kind, body, &f.violation, minimised, extra);
+        if let Some((tier, seed, runs)) = prefix {
+            path = confirm_or_prefix(prop, path, &f.violation, tier, seed, runs, f.index);
+        }
         println!("violation class={} run_index={} detail={}", f.violation.class, f.index, f.violation.detail);
         println!("VIOLATION property={} replay={}", prop, path);
         (1, found.len())
@@ -673,7 +707,7 @@ fn check_solo_family(prop: &str, tier: Tier, seed: u64) -> i32 {
         let body = if still { m.to_json() } else { f.scenario.to_json() };
         (body, still, json!({"original": f.scenario.to_json(), "run_index": f.index, "minimiser_executions": tries}))
     };
-    let (mut code, mut nviol) = report_and_exit_code(prop, &found, &stats, &known, &minimise, "scenario");
+    let (mut code, mut nviol) = report_and_exit_code(prop, &found, &stats, &known, &minimise, "scenario", Some((tier, seed, runs)));
     if code == 0 {
         if let Some(f) = comp_found.first() {
             let path = engine::write_replay(prop, "comp", f.case.clone(), &f.violation, true, json!({"case_index": f.index}));
@@ -758,6 +792,34 @@ fn run_replay(path: &str) -> i32 {
                 1
             } else {
                 println!("not reproduced: property={} class={} (the tree no longer violates it on this input)", prop, class);
+                0
+            }
+        }
+        "sweep-prefix" => {
+            let b = &doc["scenario"];
+            let tier = if b["tier"].as_str() == Some("thorough") { Tier::Thorough } else { Tier::Quick };
+            let seed: u64 = b["verif_seed"].as_str().and_then(|s| s.parse().ok()).unwrap_or(engine::DEFAULT_SEED);
+            let runs = b["runs"].as_u64().unwrap_or(0);
+            let upto = b["upto"].as_u64().unwrap_or(0);
+            if let Some(t) = b["threads"].as_u64() {
+                std::env::set_var("PFSIM_THREADS", t.to_string());
+            }
+            let classes: Vec<String> = if prop == "C07" {
+                let (_, found, _) = c07_sweep(seed, (upto + 1).min(runs.max(upto + 1)), 3600.0, std::time::Instant::now());
+                found.into_iter().map(|f| f.2.class).collect()
+            } else if let Some(spec) = engine::solo_spec(&prop) {
+                engine::sweep_solo_prefix(&spec, tier, seed, runs, upto, &[]).found.into_iter().map(|f| f.violation.class).collect()
+            } else {
+                vec![]
+            };
+            for c in &classes {
+                println!("replayed: class={}", c);
+            }
+            if classes.iter().any(|c| *c == class) {
+                println!("VIOLATION property={} replay={}", prop, path);
+                1
+            } else {
+                println!("not reproduced: property={} class={}", prop, class);
                 0
             }
         }
@@ -882,7 +944,147 @@ fn run_replay(path: &str) -> i32 {
     }
 }
 
+/// digest of everything a run records: outputs, trace events, Spy records
+fn run_digest(idx: u64) -> u64 {
+    let specs = ["C17", "C04", "C08"];
+    let spec = engine::solo_spec(specs[(idx % 3) as usize]).unwrap();
+    let sc = engine::draw_for(&spec, 12345, Tier::Quick, idx);
+    let recs = exec::run_scenario(&sc, engine::trace_for(&spec, &sc), spec.spy);
+    let mut d = desc::digest(sc.to_json().to_string().as_bytes());
+    for r in &recs {
+        d = desc::mix64(d ^ desc::digest(format!("{:?}", r.outcome).as_bytes()));
+        d = desc::mix64(d ^ desc::digest(format!("{:?}", r.events).as_bytes()));
+        d = desc::mix64(d ^ desc::digest(format!("{:?}", r.spy).as_bytes()));
+    }
+    d
+}
+
+fn digests_with_threads(n: u64, nt: u64) -> Vec<u64> {
+    let parts: Vec<Vec<(u64, u64)>> = std::thread::scope(|s| {
+        let hs: Vec<_> = (0..nt)
+            .map(|t| {
+                s.spawn(move || {
+                    let mut v = vec![];
+                    let mut i = t;
+                    while i < n {
+                        v.push((i, run_digest(i)));
+                        i += nt;
+                    }
+                    v
+                })
+            })
+            .collect();
+        hs.into_iter().map(|h| h.join().unwrap()).collect()
+    });
+    let mut flat: Vec<(u64, u64)> = parts.into_iter().flatten().collect();
+    flat.sort();
+    flat.into_iter().map(|x| x.1).collect()
+}
+
+fn selfhash(n: u64) -> u64 {
+    let v = digests_with_threads(n, 4);
+    let mut d = 0u64;
+    for x in v {
+        d = desc::mix64(d ^ x);
+    }
+    d
+}
+
 fn run_selftest() -> i32 {
-    println!("selftest: nothing yet");
-    0
+    let mut ok = true;
+    let n = runs_override(3000);
+    // 1. determinism of recorded runs at several worker counts
+    let a = digests_with_threads(n, 1);
+    let b = digests_with_threads(n, 4);
+    let c = digests_with_threads(n, 16);
+    let mism = (0..n as usize).filter(|&i| a[i] != b[i] || a[i] != c[i]).count();
+    println!("selftest determinism: {} descriptors x 3 executions (1, 4, 16 worker threads): {} mismatches", n, mism);
+    ok &= mism == 0;
+    // 2. across fresh processes
+    let exe = std::env::current_exe().unwrap();
+    let mut outs = vec![];
+    for _ in 0..3 {
+        if let Ok(o) = std::process::Command::new(&exe).args(["selfhash", &n.to_string()]).output() {
+            outs.push(String::from_utf8_lossy(&o.stdout).trim().to_string());
+        }
+    }
+    let here = format!("{:016x}", selfhash(n));
+    let same = outs.len() == 3 && outs.iter().all(|o| *o == here);
+    println!("selftest determinism across processes: in-process {} children {:?}: {}", here, outs, if same { "equal" } else { "DIFFERENT" });
+    ok &= same;
+    // 3. scheduler: same plan twice, and replay from the recorded schedule
+    let mut sched_mism = 0;
+    let plans = 150u64;
+    for i in 0..plans {
+        let plan = threads::draw_plan(777, i);
+        let r1 = threads::run_plan(&plan);
+        let r2 = threads::run_plan(&plan);
+        let mut rp = plan.clone();
+        rp.schedule = Some(r1.schedule.clone());
+        let r3 = threads::run_plan(&rp);
+        if r1.schedule != r2.schedule || r1.outputs != r2.outputs || r3.outputs != r1.outputs || r3.schedule != r1.schedule || r3.diverged {
+            sched_mism += 1;
+        }
+    }
+    println!("selftest scheduler: {} plans executed twice and replayed from the recorded schedule: {} mismatches", plans, sched_mism);
+    ok &= sched_mism == 0;
+    // 4. opcode table against the live pickletools
+    if pycheck::python_enabled() {
+        let script = format!("{}/sim/py/gen_optable.py", engine::verif_root());
+        match std::process::Command::new("python3").args([&script, "--dump"]).output() {
+            Ok(o) if o.status.success() => {
+                let live: Vec<String> = String::from_utf8_lossy(&o.stdout).lines().map(|l| l.to_string()).collect();
+                let mine: Vec<String> = optable::OPCODES
+                    .iter()
+                    .map(|op| {
+                        let arg = match op.arg {
+                            None => "None".to_string(),
+                            Some(k) => format!("{:?}", k),
+                        };
+                        format!("{} {} {} {} {} {}", op.name, op.code, arg, op.proto, if op.before.is_empty() { "-" } else { op.before }, if op.after.is_empty() { "-" } else { op.after })
+                    })
+                    .collect();
+                let same = live == mine;
+                println!("selftest opcode table vs live pickletools.opcodes: {} rows, {}", mine.len(), if same { "identical" } else { "DIFFERENT" });
+                if !same {
+                    for (l, m) in live.iter().zip(mine.iter()) {
+                        if l != m {
+                            println!("  live [{}] table [{}]", l, m);
+                        }
+                    }
+                }
+                ok &= same;
+            }
+            _ => println!("selftest opcode table: python3 not available, skipped"),
+        }
+    }
+    // 5. lexer / dis model against CPython on damaged inputs (soft disagreements are listed)
+    let mut samples: Vec<(Vec<u8>, bool)> = vec![];
+    for i in 0..std::env::var("PFSIM_SELFTEST_PY").ok().and_then(|s| s.parse().ok()).unwrap_or(400u64) {
+        let spec = engine::solo_spec("C04").unwrap();
+        let sc = engine::draw_for(&spec, 4242, Tier::Quick, i);
+        for r in exec::run_scenario(&sc, exec::Trace::Off, false) {
+            if let Some(b) = r.outcome.bytes() {
+                if b.len() < 4000 {
+                    samples.push((b.to_vec(), true));
+                    for d in pycheck::damaged_variants(b, i) {
+                        samples.push((d, false));
+                    }
+                }
+            }
+        }
+    }
+    let rep = pycheck::cross_check(&samples);
+    println!("selftest model vs CPython: available={} compared={} disagreements on generator outputs={} on damaged inputs={}", rep.available, rep.compared, rep.hard.len(), rep.soft.len());
+    for m in rep.hard.iter().chain(rep.soft.iter()).take(5) {
+        println!("  {}", m);
+    }
+    ok &= rep.hard.is_empty() && rep.soft.is_empty();
+    if ok {
+        println!("selftest: OK");
+        0
+    } else {
+        println!("selftest: FAILED");
+        2
+    }
 }
